@@ -190,6 +190,9 @@ class Sched:
         t.sem.acquire()
         if self.killed:
             raise ThreadKilled()
+        if write and not ((kind == "sleep" and (op[2] or 0) < SHORT) or kind == "select"):
+            # the operation is executed now (it was only announced above): whoever went idle in between has work again
+            self.wake_idle()
         return t.timed_out
 
     def kill_all(self):
